@@ -72,7 +72,6 @@ theorem rh_loop2_succ (fuel : Nat) (src : σ) (pushback manifest mac : List UInt
       else
         .ok (.brk (manifest, mac, i, newlines, lastNewline, line)) := by
   rw [readHeader_loop2]
-  rfl
 
 /-- The body of one iteration of the read loop, once `ul` is fixed. -/
 def hdrBody (fuel : Nat) (src : σ) (pushback manifest mac : List UInt8) (err : GoSem.Err)
@@ -145,13 +144,951 @@ theorem rh_loop1_succ (fuel : Nat) (src : σ) (pushback manifest mac : List UInt
           | .nofuel => rfl
           | .ok (.ret r) => rfl
           | .ok (.brk (a, b, c, d, e, f)) => rfl
-  split
-  · unfold ulOf
-    split
-    · exact body 65536
-    · exact body _
-  · rfl
+  by_cases hc : ((decide (newlines < (3 : Int))) && (err == (none : GoSem.Err))) = true
+  · rw [if_pos hc, if_pos hc]
+    unfold ulOf
+    by_cases hu : decide (wrapI64 (n + (512 : Int)) > (65536 : Int)) = true
+    · rw [if_pos hu]
+      dsimp only
+      rw [if_pos hu]
+      exact body 65536
+    · rw [if_neg hu]
+      dsimp only
+      rw [if_neg hu]
+      exact body _
+  · rw [if_neg hc, if_neg hc]
 
 end unfold
+
+/-! ### slices with natural-number bounds -/
+
+def nslice {α : Type} (b : List α) (lo hi : Nat) : List α := (b.take hi).drop lo
+
+theorem slice_cast {α : Type} (b : List α) (lo hi : Nat) : slice b (lo : Int) (hi : Int) = nslice b lo hi := by
+  simp [slice, nslice]
+
+theorem nslice_self {α : Type} (b : List α) (i : Nat) : nslice b i i = [] := by
+  unfold nslice
+  apply List.drop_eq_nil_of_le
+  simp only [List.length_take]
+  omega
+
+theorem nslice_length {α : Type} (b : List α) (lo hi : Nat) (h : hi ≤ b.length) :
+    (nslice b lo hi).length = hi - lo := by
+  unfold nslice
+  simp only [List.length_drop, List.length_take]
+  omega
+
+theorem nslice_snoc {α : Type} (b : List α) (lo i : Nat) (h1 : lo ≤ i) (h2 : i < b.length) :
+    nslice b lo (i + 1) = nslice b lo i ++ [b[i]] := by
+  unfold nslice
+  rw [List.take_succ_eq_append_getElem h2, List.drop_append_of_le_length (by simp only [List.length_take]; omega)]
+
+theorem nslice_cons {α : Type} (b : List α) (i hi : Nat) (h1 : i < hi) (h2 : hi ≤ b.length) :
+    nslice b i hi = b[i] :: nslice b (i + 1) hi := by
+  unfold nslice
+  rw [List.drop_eq_getElem_cons (by simp only [List.length_take]; omega)]
+  simp [List.getElem_take]
+
+theorem nslice_append {α : Type} (b : List α) (lo mid hi : Nat) (h1 : lo ≤ mid) (h2 : mid ≤ hi) (h3 : hi ≤ b.length) :
+    nslice b lo mid ++ nslice b mid hi = nslice b lo hi := by
+  unfold nslice
+  conv => rhs; rw [← List.take_append_drop mid (b.take hi)]
+  rw [List.take_take, Nat.min_eq_left h2, List.drop_append_of_le_length (by simp only [List.length_take]; omega)]
+
+theorem idx_cast (b : List UInt8) (i : Nat) (h : i < b.length) : idx b (i : Int) = b[i] := by
+  unfold idx
+  simp only [Int.toNat_natCast]
+  rw [List.getD_eq_getElem?_getD, List.getElem?_eq_getElem h]
+  rfl
+
+theorem wrap_nat_succ (i : Nat) (h : (i : Int) < maxI64) : wrapI64 ((i : Int) + 1) = ((i + 1 : Nat) : Int) := by
+  unfold maxI64 at h
+  rw [wrapI64_of_in (by unfold InI64; omega)]
+  omega
+
+/-- A write into the window `[lo, hi)` leaves everything below `lo` alone. -/
+theorem writeAt_take_below {α : Type} (s d : List α) (lo hi : Int) (k : Nat) (hk : k ≤ lo.toNat)
+    (h : lo.toNat ≤ s.length) : (writeAt s lo hi d).take k = s.take k := by
+  unfold writeAt
+  rw [List.append_assoc]
+  rw [List.take_append_of_le_length (by simp only [List.length_take]; omega), List.take_take, Nat.min_eq_left hk]
+
+theorem nslice_writeAt_below {α : Type} (s d : List α) (lo hi : Int) (a b : Nat) (hb : b ≤ lo.toNat)
+    (h : lo.toNat ≤ s.length) : nslice (writeAt s lo hi d) a b = nslice s a b := by
+  unfold nslice
+  rw [writeAt_take_below s d lo hi b hb h]
+
+theorem writeAt_length' {α : Type} (s d : List α) (lo hi : Int)
+    (h1 : lo.toNat ≤ hi.toNat) (h2 : hi.toNat ≤ s.length) : lenI (writeAt s lo hi d) = lenI s := by
+  unfold lenI
+  rw [writeAt_length s d lo hi h1 h2]
+
+theorem slice_snoc_int (b : List UInt8) (lo i : Int) (h0 : 0 ≤ lo) (h1 : lo ≤ i) (h2 : i < lenI b) :
+    slice b lo (i + 1) = slice b lo i ++ [idx b i] := by
+  obtain ⟨lo, rfl⟩ := Int.eq_ofNat_of_zero_le h0
+  obtain ⟨i, rfl⟩ := Int.eq_ofNat_of_zero_le (Int.le_trans h0 h1)
+  unfold lenI at h2
+  have e : ((i : Int) + 1) = ((i + 1 : Nat) : Int) := by omega
+  rw [e, slice_cast, slice_cast, idx_cast _ _ (by omega), nslice_snoc _ _ _ (by omega) (by omega)]
+
+theorem slice_self_int {α : Type} (b : List α) (i : Int) : slice b i i = [] := by
+  unfold slice
+  apply List.drop_eq_nil_of_le
+  simp only [List.length_take]
+  omega
+
+theorem slice_writeAt_below {α : Type} (s d : List α) (lo hi a b : Int) (hb : b ≤ lo)
+    (h : lo.toNat ≤ s.length) : slice (writeAt s lo hi d) a b = slice s a b := by
+  unfold slice
+  rw [writeAt_take_below s d lo hi b.toNat (by omega) h]
+
+/-! ### on the translated code alone, for an arbitrary reader -/
+
+section general
+variable {σ : Type} (R_Read : σ → Int → Int × GoSem.Err) (R_Data : σ → Int → List UInt8)
+  (R_Step : σ → Int → σ) (buf0 : List UInt8)
+
+/-- No line feed in the line. -/
+def Clean (l : List UInt8) : Prop := (10 : UInt8) ∉ l
+
+/-- What the byte scan guarantees (`hi = n + nn`, the end of the bytes just read). -/
+def H2Post (hi : Int) (src : σ) (pb buf : List UInt8) : H2Out σ → Prop
+  | .panic _ => False
+  | .nofuel => True
+  | .ok (.ret r) => r = (([] : List UInt8), ([] : List UInt8), (some "errors.New" : GoSem.Err), src, pb)
+  | .ok (.brk (manifest, mac, i, newlines, ln, _)) =>
+      0 ≤ ln ∧ ln ≤ i ∧ i ≤ hi ∧ (newlines < 3 → i = hi) ∧ Clean (slice buf ln i) ∧ Clean manifest ∧ Clean mac
+
+theorem rh_loop2_inv (src : σ) (pb : List UInt8) (err : GoSem.Err) (buf : List UInt8) (n nn ul hi : Int)
+    (hw : wrapI64 (n + nn) = hi) (hhi : hi ≤ lenI buf) (hmax : lenI buf ≤ maxI64) :
+    ∀ (fuel : Nat) (manifest mac : List UInt8) (i newlines ln : Int) (line : List UInt8),
+      0 ≤ ln → ln ≤ i → i ≤ hi → Clean (slice buf ln i) → Clean manifest → Clean mac →
+      H2Post hi src pb buf
+        (readHeader_loop2 fuel R_Read R_Data R_Step buf0 src pb manifest mac err buf n nn i ul newlines ln line) := by
+  intro fuel
+  induction fuel with
+  | zero => intros; rw [readHeader_loop2]; trivial
+  | succ fuel ih =>
+    intro manifest mac i newlines ln line h0 h1 h2 hc hm hk
+    unfold maxI64 at hmax
+    rw [rh_loop2_succ, hw]
+    split
+    · rename_i hcond
+      simp only [Bool.and_eq_true, decide_eq_true_eq] at hcond
+      have hw1 : wrapI64 (i + 1) = i + 1 := wrapI64_of_in (by unfold InI64; omega)
+      have hb : decide (0 ≤ i ∧ i < lenI buf) = true := by simp only [decide_eq_true_eq]; omega
+      simp only [hb, Bool.not_true, Bool.false_eq_true, if_false, hw1]
+      split
+      · rename_i hne
+        refine ih manifest mac (i + 1) newlines ln line h0 (by omega) (by omega) ?_ hm hk
+        rw [slice_snoc_int buf ln i h0 h1 (by omega)]
+        unfold Clean at *
+        simp only [List.mem_append, List.mem_singleton, not_or]
+        refine ⟨hc, fun h => ?_⟩
+        rw [← h] at hne
+        simp at hne
+      · split
+        · rfl
+        · rename_i hgt
+          simp only [decide_eq_true_eq] at hgt
+          have hb2 : decide (0 ≤ ln ∧ ln ≤ i ∧ i ≤ lenI buf) = true := by simp only [decide_eq_true_eq]; omega
+          simp only [hb2, Bool.not_true, Bool.false_eq_true, if_false]
+          have hself : Clean (slice buf (i + 1) (i + 1)) := by rw [slice_self_int]; unfold Clean; simp
+          split
+          · split
+            · rfl
+            · exact ih manifest mac (i + 1) _ (i + 1) _ (by omega) (by omega) (by omega) hself hm hk
+          · split
+            · exact ih _ mac (i + 1) _ (i + 1) _ (by omega) (by omega) (by omega) hself hc hk
+            · split
+              · exact ih manifest _ (i + 1) _ (i + 1) _ (by omega) (by omega) (by omega) hself hm hc
+              · exact ih manifest mac (i + 1) _ (i + 1) _ (by omega) (by omega) (by omega) hself hm hk
+    · rename_i hcond
+      simp only [Bool.and_eq_true, decide_eq_true_eq, not_and] at hcond
+      exact ⟨h0, h1, h2, fun h => by have := fun x => hcond x h; omega, hc, hm, hk⟩
+
+/-- What the read loop guarantees. `Q s n` is any relation between the reader state and the byte
+count `n` that every `Read` on the window `(*buf)[n:65536]` preserves. -/
+def H1Post (Q : σ → Int → Prop) (L : Int) (pb : List UInt8) : H1Out σ → Prop
+  | .panic _ => False
+  | .nofuel => True
+  | .ok (.ret (m, c, e, s, p)) =>
+      m = [] ∧ c = [] ∧ e = (some "errors.New" : GoSem.Err) ∧ p = pb ∧ ∃ n, 0 ≤ n ∧ n ≤ 65536 ∧ Q s n
+  | .ok (.brk (src, manifest, mac, _, buf, n, _, _, _, _, ln, _)) =>
+      lenI buf = L ∧ 0 ≤ ln ∧ ln ≤ n ∧ n ≤ 65536 ∧ Clean manifest ∧ Clean mac ∧ Q src n
+
+/-- `Q` is kept by a `Read` on the window `(*buf)[n:65536]`. -/
+def QStep (Q : σ → Int → Prop) : Prop :=
+  ∀ s n, 0 ≤ n → n < 65536 → Q s n → Q (R_Step s (65536 - n)) (n + (R_Read s (65536 - n)).1)
+
+theorem ulOf_ne (n : Int) (h0 : 0 ≤ n) (h1 : n < 65536) : (n == ulOf n) = false := by
+  unfold ulOf
+  rw [wrapI64_of_in (by unfold InI64; omega)]
+  rw [beq_eq_false_iff_ne]
+  split <;> omega
+
+theorem ulOf_full : ((65536 : Int) == ulOf 65536) = true := by decide
+
+theorem rh_loop1_inv (hR : ReaderContract R_Read) (Q : σ → Int → Prop) (hQ : QStep R_Read R_Step Q) (L : Int)
+    (hL1 : 65536 ≤ L) (hL2 : L ≤ maxI64) :
+    ∀ (fuel : Nat) (src : σ) (pb manifest mac : List UInt8) (err : GoSem.Err) (buf : List UInt8)
+      (n nn i ul newlines ln : Int) (line : List UInt8),
+      lenI buf = L → 0 ≤ ln → ln ≤ n → n ≤ 65536 → (newlines < 3 → Clean (slice buf ln n)) → Clean manifest →
+      Clean mac → Q src n →
+      H1Post Q L pb
+        (readHeader_loop1 fuel R_Read R_Data R_Step buf0 src pb manifest mac err buf n nn i ul newlines ln line) := by
+  intro fuel
+  induction fuel with
+  | zero => intros; rw [readHeader_loop1]; trivial
+  | succ fuel ih =>
+    intro src pb manifest mac err buf n nn i ul newlines ln line hlen h0 h1 h2 hc hm hk hq
+    unfold maxI64 at hL2
+    rw [rh_loop1_succ]
+    split
+    · rename_i hcond
+      simp only [Bool.and_eq_true, decide_eq_true_eq] at hcond
+      unfold hdrBody
+      by_cases hn : n = 65536
+      · subst hn
+        simp only [ulOf_full, if_true]
+        exact ⟨hlen, h0, h1, h2, hm, hk, hq⟩
+      · have hn' : n < 65536 := by omega
+        have hb : decide (0 ≤ n ∧ n ≤ (65536 : Int) ∧ (65536 : Int) ≤ lenI buf) = true := by
+          simp only [decide_eq_true_eq]; omega
+        have hk1 : lenI (slice buf n 65536) = 65536 - n := by
+          unfold lenI at *
+          rw [slice_length _ _ _ (by omega)]; omega
+        have hlen' : ∀ d, lenI (writeAt buf n 65536 d) = L := by
+          intro d
+          rw [writeAt_length' _ _ _ _ (by omega) (by unfold lenI at hlen; omega)]; exact hlen
+        have hk2 : ∀ d, lenI (slice (writeAt buf n 65536 d) n 65536) = 65536 - n := by
+          intro d
+          have := hlen' d
+          unfold lenI at *
+          rw [slice_length _ _ _ (by omega)]; omega
+        simp only [ulOf_ne n (by omega) hn', hb, Bool.not_true, Bool.false_eq_true, if_false, hk1, hk2]
+        obtain ⟨c0, c1⟩ := hR src (65536 - n) (by omega)
+        have hq' := hQ src n (by omega) hn' hq
+        have hcl : newlines < 3 → Clean (slice (writeAt buf n 65536 (R_Data src (65536 - n))) ln n) := by
+          intro h
+          rw [slice_writeAt_below _ _ _ _ _ _ (Int.le_refl _) (by unfold lenI at hlen; omega)]
+          exact hc h
+        split
+        · rename_i hz
+          simp only [decide_eq_true_eq] at hz
+          have hz' : (R_Read src (65536 - n)).1 = 0 := by omega
+          rw [hz', Int.add_zero] at hq'
+          exact ih _ pb manifest mac _ _ n _ i _ newlines ln line (hlen' _) h0 h1 h2 hcl hm hk hq'
+        · rename_i hz
+          simp only [decide_eq_true_eq] at hz
+          have hw : wrapI64 (n + (R_Read src (65536 - n)).1) = n + (R_Read src (65536 - n)).1 :=
+            wrapI64_of_in (by unfold InI64; omega)
+          have h2p := rh_loop2_inv R_Read R_Data R_Step buf0 (R_Step src (65536 - n)) pb (R_Read src (65536 - n)).2
+            (writeAt buf n 65536 (R_Data src (65536 - n))) n (R_Read src (65536 - n)).1 (ulOf n)
+            (n + (R_Read src (65536 - n)).1) hw (by rw [hlen']; omega) (by rw [hlen']; unfold maxI64; omega)
+            fuel manifest mac n newlines ln line h0 h1 (by omega) (hcl hcond.1) hm hk
+          generalize readHeader_loop2 fuel R_Read R_Data R_Step buf0 (R_Step src (65536 - n)) pb manifest mac
+            (R_Read src (65536 - n)).2 (writeAt buf n 65536 (R_Data src (65536 - n))) n (R_Read src (65536 - n)).1 n
+            (ulOf n) newlines ln line = x at h2p
+          match x, h2p with
+          | .nofuel, _ => trivial
+          | .ok (.ret r), h2p =>
+            simp only [H2Post] at h2p
+            subst h2p
+            exact ⟨rfl, rfl, rfl, rfl, _, by omega, by omega, hq'⟩
+          | .ok (.brk (manifest', mac', i', newlines', ln', line')), h2p =>
+            obtain ⟨p0, p1, p2, p3, p4, p5, p6⟩ := h2p
+            simp only [bindH, hw]
+            refine ih _ pb manifest' mac' _ _ _ _ i' _ newlines' ln' line' (hlen' _) p0 (by omega) (by omega) ?_ p5 p6 hq'
+            intro h
+            rw [← p3 h]
+            exact p4
+    · exact ⟨hlen, h0, h1, h2, hm, hk, hq⟩
+
+/-- The part of `readHeader` after the read loop. -/
+def hdrFinish (pushback : List UInt8) : H1Out σ → Res (HRet σ)
+  | .panic m => .panic m
+  | .nofuel => .nofuel
+  | .ok (.ret r) => .ok r
+  | .ok (.brk (src, manifest, mac, err, buf, n, _, _, _, newlines, ln, _)) =>
+    if (decide (newlines < (1 : Int))) then
+      .ok (([] : List UInt8), ([] : List UInt8), (some "errors.New" : GoSem.Err), src, pushback)
+    else if ((lenI manifest) == (0 : Int)) then
+      .ok (([] : List UInt8), ([] : List UInt8), (some "errors.New" : GoSem.Err), src, pushback)
+    else if ((lenI mac) == (0 : Int)) then
+      .ok (([] : List UInt8), ([] : List UInt8), (some "errors.New" : GoSem.Err), src, pushback)
+    else if ((err != (none : GoSem.Err)) && (!(err == (some "io.EOF" : GoSem.Err)))) then
+      .ok (([] : List UInt8), ([] : List UInt8), err, src, pushback)
+    else if (decide (n > ln)) then
+      if !(decide (0 ≤ (wrapI64 (n - ln)))) then .panic "makeslice: len out of range: make([]byte, n-lastNewline)"
+      else if !(decide (0 ≤ ln ∧ ln ≤ n ∧ n ≤ lenI buf)) then .panic "slice bounds out of range: (*buf)[(lastNewline):n]"
+      else .ok (manifest, mac, (none : GoSem.Err), src,
+        GoSem.fill (List.replicate (wrapI64 (n - ln)).toNat (0 : UInt8)) (slice buf ln n))
+    else .ok (manifest, mac, (none : GoSem.Err), src, pushback)
+
+theorem readHeader_eq_finish (fuel : Nat) (src : σ) (pb : List UInt8) :
+    Kit.Generated.CodeC01.readHeader fuel R_Read R_Data R_Step buf0 src pb =
+      hdrFinish pb (readHeader_loop1 fuel R_Read R_Data R_Step buf0 src pb [] [] none buf0 0 0 0 0 0 0 []) := by
+  unfold Kit.Generated.CodeC01.readHeader
+  simp only
+  cases readHeader_loop1 fuel R_Read R_Data R_Step buf0 src pb [] [] none buf0 0 0 0 0 0 0 [] with
+  | panic m => rfl
+  | nofuel => rfl
+  | ok v =>
+    cases v with
+    | ret r => rfl
+    | brk s =>
+      obtain ⟨a, b, c, d, e, f, g, h, i, j, k, l⟩ := s
+      rfl
+
+/-- What a run of the translated `readHeader` guarantees, for any reader within the contract and
+any `Read`-invariant `Q` of the reader state that holds initially with count 0. -/
+def HdrPost (Q : σ → Int → Prop) (pb : List UInt8) : Res (HRet σ) → Prop
+  | .panic _ => False
+  | .nofuel => True
+  | .ok (m, c, e, s, p) =>
+      (∃ n, 0 ≤ n ∧ n ≤ 65536 ∧ Q s n) ∧
+      (e = none → m ≠ [] ∧ c ≠ [] ∧ (10 : UInt8) ∉ m ∧ (10 : UInt8) ∉ c) ∧
+      (e ≠ none → m = [] ∧ c = [] ∧ p = pb)
+
+theorem readHeader_code_post (hR : ReaderContract R_Read) (Q : σ → Int → Prop) (hQ : QStep R_Read R_Step Q)
+    (hbuf : 65536 ≤ lenI buf0) (hlen : lenI buf0 ≤ maxI64) (fuel : Nat) (src : σ) (pb : List UInt8) (hq0 : Q src 0) :
+    HdrPost Q pb (Kit.Generated.CodeC01.readHeader fuel R_Read R_Data R_Step buf0 src pb) := by
+  rw [readHeader_eq_finish]
+  have hnil : Clean [] := by unfold Clean; simp
+  have h1 := rh_loop1_inv R_Read R_Data R_Step buf0 hR Q hQ (lenI buf0) hbuf hlen fuel src pb [] [] none buf0
+    0 0 0 0 0 0 [] rfl (Int.le_refl _) (Int.le_refl _) (by omega) (fun _ => by rw [slice_self_int]; exact hnil) hnil hnil hq0
+  generalize readHeader_loop1 fuel R_Read R_Data R_Step buf0 src pb [] [] none buf0 0 0 0 0 0 0 [] = x at h1
+  unfold maxI64 at hlen
+  match x, h1 with
+  | .nofuel, _ => trivial
+  | .ok (.ret (m, c, e, s, p)), h1 =>
+    obtain ⟨rfl, rfl, rfl, rfl, hn⟩ := h1
+    exact ⟨hn, fun h => (by cases h), fun _ => ⟨rfl, rfl, rfl⟩⟩
+  | .ok (.brk (src', manifest, mac, err, buf, n, nn, i, ul, newlines, ln, line)), h1 =>
+    obtain ⟨e1, e2, e3, e4, e5, e6, e7⟩ := h1
+    have hQ' : ∃ n, 0 ≤ n ∧ n ≤ 65536 ∧ Q src' n := ⟨n, by omega, e4, e7⟩
+    have herr : ∀ (e : GoSem.Err), e ≠ none →
+        HdrPost Q pb (.ok (([] : List UInt8), ([] : List UInt8), e, src', pb)) :=
+      fun e he => ⟨hQ', fun h => absurd h he, fun _ => ⟨rfl, rfl, rfl⟩⟩
+    have hnew : (some "errors.New" : GoSem.Err) ≠ none := by intro h; cases h
+    unfold hdrFinish
+    simp only
+    split
+    · exact herr _ hnew
+    · split
+      · exact herr _ hnew
+      · rename_i hm0
+        split
+        · exact herr _ hnew
+        · rename_i hc0
+          have hmne : manifest ≠ [] := by
+            intro h; apply hm0; rw [h]; rfl
+          have hcne : mac ≠ [] := by
+            intro h; apply hc0; rw [h]; rfl
+          split
+          · rename_i he
+            simp only [Bool.and_eq_true, bne_iff_ne, ne_eq] at he
+            exact herr _ he.1
+          · have hw : wrapI64 (n - ln) = n - ln := wrapI64_of_in (by unfold InI64; omega)
+            split
+            · rename_i hgt
+              simp only [decide_eq_true_eq] at hgt
+              have hb1 : decide (0 ≤ n - ln) = true := by simp only [decide_eq_true_eq]; omega
+              have hb2 : decide (0 ≤ ln ∧ ln ≤ n ∧ n ≤ lenI buf) = true := by simp only [decide_eq_true_eq]; omega
+              simp only [hw, hb1, hb2, Bool.not_true, Bool.false_eq_true, if_false]
+              exact ⟨hQ', fun _ => ⟨hmne, hcne, e5, e6⟩, fun h => absurd rfl h⟩
+            · exact ⟨hQ', fun _ => ⟨hmne, hcne, e5, e6⟩, fun h => absurd rfl h⟩
+
+/-- **The translated `readHeader` never panics** — `(*buf)[n:SegmentSize]`, `(*buf)[i]`,
+`(*buf)[lastNewline:i]`, `make([]byte, n-lastNewline)`, `(*buf)[lastNewline:n]` are all in range —
+for any reader state type and any `Read` behaviour within the `io.Reader` contract (`0 ≤ n ≤ len(p)`
+on a non-empty `p`; errors, data and progress arbitrary), any fuel, provided the pooled buffer holds
+`SegmentSize` = 65536 bytes (its length is a Go `int`). Both hypotheses are needed:
+`readHeader_code_panics_short_buffer`, `readHeader_code_panics_overlong_read`,
+`readHeader_code_panics_negative_read`. -/
+theorem readHeader_code_never_panics (hR : ReaderContract R_Read)
+    (hbuf : 65536 ≤ lenI buf0) (hlen : lenI buf0 ≤ maxI64) (fuel : Nat) (src : σ) (pb : List UInt8) :
+    ∀ msg, Kit.Generated.CodeC01.readHeader fuel R_Read R_Data R_Step buf0 src pb ≠ .panic msg := by
+  intro msg h
+  have := readHeader_code_post R_Read R_Data R_Step buf0 hR (fun _ _ => True) (fun _ _ _ _ _ => trivial)
+    hbuf hlen fuel src pb trivial
+  rw [h] at this
+  exact this
+
+/-- **What `readHeader` returns** (same generality): on success (`err == nil`) the manifest line and
+the MAC line are non-empty and contain no line feed; on any error both are `nil` and the reader is
+not re-wrapped (`pushback` untouched). -/
+theorem readHeader_code_lines (hR : ReaderContract R_Read)
+    (hbuf : 65536 ≤ lenI buf0) (hlen : lenI buf0 ≤ maxI64) (fuel : Nat) (src : σ) (pb : List UInt8)
+    (m c : List UInt8) (e : GoSem.Err) (src' : σ) (pb' : List UInt8)
+    (h : Kit.Generated.CodeC01.readHeader fuel R_Read R_Data R_Step buf0 src pb = .ok (m, c, e, src', pb')) :
+    (e = none → m ≠ [] ∧ c ≠ [] ∧ (10 : UInt8) ∉ m ∧ (10 : UInt8) ∉ c) ∧
+    (e ≠ none → m = [] ∧ c = [] ∧ pb' = pb) := by
+  have := readHeader_code_post R_Read R_Data R_Step buf0 hR (fun _ _ => True) (fun _ _ _ _ _ => trivial)
+    hbuf hlen fuel src pb trivial
+  rw [h] at this
+  exact this.2
+
+/-! #### the header limit: what is asked of the reader -/
+
+/-- The reader with a log of its `Read` calls: `(len(p), n)` for every call, in order. -/
+def logRead : σ × List (Int × Int) → Int → Int × GoSem.Err := fun s k => R_Read s.1 k
+def logData : σ × List (Int × Int) → Int → List UInt8 := fun s k => R_Data s.1 k
+def logStep : σ × List (Int × Int) → Int → σ × List (Int × Int) :=
+  fun s k => (R_Step s.1 k, s.2 ++ [(k, (R_Read s.1 k).1)])
+
+/-- Every logged `Read` was issued on the window `[s, 65536)` of the buffer, where `s ≥ 0` is the
+number of bytes reported so far; the window is not empty and the reported count fits in it. -/
+def WindowsFrom : Int → List (Int × Int) → Prop
+  | _, [] => True
+  | s, (k, nn) :: rest => 0 ≤ s ∧ k = 65536 - s ∧ 0 < k ∧ 0 ≤ nn ∧ nn ≤ k ∧ WindowsFrom (s + nn) rest
+
+/-- Total number of bytes the logged `Read`s reported. -/
+def readTotal : List (Int × Int) → Int
+  | [] => 0
+  | (_, nn) :: rest => nn + readTotal rest
+
+theorem readTotal_snoc (lg : List (Int × Int)) (k nn : Int) : readTotal (lg ++ [(k, nn)]) = readTotal lg + nn := by
+  induction lg with
+  | nil => simp [readTotal]
+  | cons c rest ih =>
+    obtain ⟨k', nn'⟩ := c
+    simp only [List.cons_append, readTotal, ih]
+    omega
+
+theorem windowsFrom_snoc (lg : List (Int × Int)) : ∀ (s k nn : Int), WindowsFrom s lg →
+    0 ≤ s + readTotal lg → k = 65536 - (s + readTotal lg) → 0 < k → 0 ≤ nn → nn ≤ k →
+    WindowsFrom s (lg ++ [(k, nn)]) := by
+  induction lg with
+  | nil =>
+    intro s k nn _ h0 h1 h2 h3 h4
+    simp only [readTotal, Int.add_zero] at h0 h1
+    exact ⟨h0, h1, h2, h3, h4, trivial⟩
+  | cons c rest ih =>
+    intro s k nn hw h0 h1 h2 h3 h4
+    obtain ⟨k', nn'⟩ := c
+    obtain ⟨w0, w1, w2, w3, w4, w5⟩ := hw
+    simp only [readTotal] at h0 h1
+    exact ⟨w0, w1, w2, w3, w4, ih (s + nn') k nn w5 (by omega) (by omega) h2 h3 h4⟩
+
+/-- **The header limit.** Run the translated `readHeader` on any reader within the contract, with its
+`Read` calls logged. Every `Read` is issued on the window `(*buf)[s:65536]` with `0 ≤ s < 65536` the
+number of bytes reported so far (`WindowsFrom 0`), so no byte is ever placed at or beyond offset
+65536, and the total number of bytes read is at most 65536 — whatever the content (e.g. a stream
+without any line feed). And if it returns `err == nil` then `manifest` and `mac` are non-empty and
+contain no line feed. -/
+theorem readHeader_code_header_limit (hR : ReaderContract R_Read)
+    (hbuf : 65536 ≤ lenI buf0) (hlen : lenI buf0 ≤ maxI64) (fuel : Nat) (src : σ) (pb : List UInt8)
+    (m c : List UInt8) (e : GoSem.Err) (src' : σ) (lg : List (Int × Int)) (pb' : List UInt8)
+    (h : Kit.Generated.CodeC01.readHeader fuel (logRead R_Read) (logData R_Data) (logStep R_Read R_Step) buf0
+      (src, []) pb = .ok (m, c, e, (src', lg), pb')) :
+    WindowsFrom 0 lg ∧ 0 ≤ readTotal lg ∧ readTotal lg ≤ 65536 ∧
+    (e = none → m ≠ [] ∧ c ≠ [] ∧ (10 : UInt8) ∉ m ∧ (10 : UInt8) ∉ c) := by
+  have hR' : ReaderContract (logRead R_Read) := fun s k hk => hR s.1 k hk
+  have := readHeader_code_post (logRead R_Read) (logData R_Data) (logStep R_Read R_Step) buf0 hR'
+    (fun s n => WindowsFrom 0 s.2 ∧ readTotal s.2 = n)
+    (by
+      intro s n h0 h1 hq
+      obtain ⟨q1, q2⟩ := hq
+      obtain ⟨c0, c1⟩ := hR s.1 (65536 - n) (by omega)
+      refine ⟨windowsFrom_snoc _ _ _ _ q1 (by omega) (by omega) (by omega) c0 c1, ?_⟩
+      simp only [logStep, logRead, readTotal_snoc, q2])
+    hbuf hlen fuel (src, []) pb ⟨trivial, rfl⟩
+  rw [h] at this
+  obtain ⟨⟨n, h0, h1, q1, q2⟩, h2, _⟩ := this
+  simp only at q1 q2
+  exact ⟨q1, by omega, by omega, h2⟩
+
+/-! #### the boundary of termination -/
+
+theorem rh_loop1_spin (hspin : ∀ s k, (R_Read s k).1 ≤ 0 ∧ (R_Read s k).2 = none) (pb : List UInt8) :
+    ∀ (fuel : Nat) (src : σ) (buf : List UInt8) (nn i ul : Int) (line : List UInt8), 65536 ≤ lenI buf →
+      readHeader_loop1 fuel R_Read R_Data R_Step buf0 src pb [] [] none buf 0 nn i ul 0 0 line = .nofuel := by
+  intro fuel
+  induction fuel with
+  | zero => intros; rw [readHeader_loop1]
+  | succ fuel ih =>
+    intro src buf nn i ul line hbuf
+    rw [rh_loop1_succ]
+    have hc : (decide ((0 : Int) < 3) && ((none : GoSem.Err) == none)) = true := by decide
+    rw [if_pos hc]
+    unfold hdrBody
+    have hb : decide (0 ≤ (0 : Int) ∧ (0 : Int) ≤ (65536 : Int) ∧ (65536 : Int) ≤ lenI buf) = true := by
+      simp only [decide_eq_true_eq]; omega
+    simp only [ulOf_ne 0 (by omega) (by omega), hb, Bool.not_true, Bool.false_eq_true, if_false]
+    obtain ⟨s1, s2⟩ := hspin src (lenI (slice buf 0 65536))
+    rw [if_pos (by simp only [decide_eq_true_eq]; exact s1), s2]
+    apply ih
+    rw [writeAt_length' _ _ _ _ (by omega) (by unfold lenI at hbuf; omega)]
+    exact hbuf
+
+/-- A reader whose every `Read` reports `n ≤ 0` with a nil error keeps the translated `readHeader`
+in its loop for ever (`nn <= 0 → continue` with `n`, `newlines`, `err` unchanged): `.nofuel` for
+every fuel. -/
+theorem readHeader_code_can_spin_gen (hspin : ∀ s k, (R_Read s k).1 ≤ 0 ∧ (R_Read s k).2 = none)
+    (hbuf : 65536 ≤ lenI buf0) (fuel : Nat) (src : σ) (pb : List UInt8) :
+    Kit.Generated.CodeC01.readHeader fuel R_Read R_Data R_Step buf0 src pb = .nofuel := by
+  rw [readHeader_eq_finish, rh_loop1_spin R_Read R_Data R_Step buf0 hspin pb fuel src buf0 0 0 0 [] hbuf]
+  rfl
+
+/-- **Boundary of the termination claim** (not a finding): a reader that returns `(0, nil)` for ever
+— which the `io.Reader` contract discourages but allows — makes the translated `readHeader` return
+`.nofuel` for every fuel: the Go loop `continue`s without progress. The model's scripted readers
+have finitely many zero-length reads, which is why `readHeader_code_eq_model` can name a fuel
+bound (`r.measure + 65538`). -/
+theorem readHeader_code_can_spin (hzero : ∀ s k, R_Read s k = (0, none))
+    (hbuf : 65536 ≤ lenI buf0) (fuel : Nat) (src : σ) (pb : List UInt8) :
+    Kit.Generated.CodeC01.readHeader fuel R_Read R_Data R_Step buf0 src pb = .nofuel :=
+  readHeader_code_can_spin_gen R_Read R_Data R_Step buf0
+    (fun s k => by rw [hzero s k]; exact ⟨Int.le_refl _, rfl⟩) hbuf fuel src pb
+
+end general
+
+/-! ### the model is the code -/
+
+/-- The error value of the translated code for each error of the model's `readHeader`: the five
+`errors.New(…)` of the function itself, and the failing source's own error. -/
+def encHdrErr : Enc.Err → GoSem.Err
+  | .source => encRes .fail
+  | _ => some "errors.New"
+
+theorem hdrStep_other (scheme : Bytes) (nl : Nat) (cur man mc : Bytes) (b : UInt8) (h : nl < 3) (hb : b ≠ 10) :
+    hdrStep scheme ⟨nl, cur, man, mc⟩ b = .ok ⟨nl, b :: cur, man, mc⟩ := by
+  have : ¬ nl ≥ 3 := by omega
+  simp [hdrStep, this, hb]
+
+theorem hdrStep_many (scheme : Bytes) (nl : Nat) (cur man mc : Bytes) (b : UInt8) (h : 3 ≤ nl) :
+    hdrStep scheme ⟨nl, cur, man, mc⟩ b = .ok ⟨nl, b :: cur, man, mc⟩ := by
+  simp [hdrStep, h]
+
+theorem hdrStep_empty (scheme : Bytes) (nl : Nat) (man mc : Bytes) (h : nl < 3) :
+    hdrStep scheme ⟨nl, [], man, mc⟩ 10 = .error .hdrInvalidFormat := by
+  have : ¬ nl ≥ 3 := by omega
+  simp [hdrStep, this]
+
+theorem hdrStep_nl0 (scheme : Bytes) (cur man mc : Bytes) (h : cur ≠ []) :
+    hdrStep scheme ⟨0, cur, man, mc⟩ 10 =
+      if cur.reverse = scheme then .ok ⟨1, [], man, mc⟩ else .error .hdrUnsupportedScheme := by
+  simp [hdrStep, h]
+
+theorem hdrStep_nl1 (scheme : Bytes) (cur man mc : Bytes) (h : cur ≠ []) :
+    hdrStep scheme ⟨1, cur, man, mc⟩ 10 = .ok ⟨2, [], cur.reverse, mc⟩ := by
+  simp [hdrStep, h]
+
+theorem hdrStep_nl2 (scheme : Bytes) (cur man mc : Bytes) (h : cur ≠ []) :
+    hdrStep scheme ⟨2, cur, man, mc⟩ 10 = .ok ⟨3, [], man, cur.reverse⟩ := by
+  simp [hdrStep, h]
+
+section scan
+variable {σ : Type} (R_Read : σ → Int → Int × GoSem.Err) (R_Data : σ → Int → List UInt8)
+  (R_Step : σ → Int → σ) (buf0 : List UInt8)
+
+/-- **The byte scan is `hdrScan`.** The translated `for i = n; i < n+nn && newlines < 3; i++ { … }`
+run on the bytes `B[i:hi]` (`hi = n + nn`) from a state that corresponds to the model's scan state
+(`newlines`, `manifest`, `mac` equal, the model's current line = `B[lastNewline:i]`) returns from the
+function exactly when `hdrScan` fails, and otherwise ends in the state `hdrScan` computes, with the
+model's current line = `B[lastNewline:hi]` (the bytes after the third line feed are not scanned by
+the code and are collected by the model: both end up in `B[lastNewline:n+nn]`). For an arbitrary
+reader: the scan does not touch it. -/
+theorem rh_loop2_sim (src : σ) (pb : List UInt8) (err : GoSem.Err) (B : List UInt8) (n nn ul : Int) (hi : Nat)
+    (hw : wrapI64 (n + nn) = (hi : Int)) (hhi : hi ≤ B.length) (hmax : (B.length : Int) ≤ maxI64) :
+    ∀ (k f i ln nl : Nat) (cur man mc line : List UInt8), i + k = hi → k + 1 ≤ f → ln ≤ i →
+      cur.reverse = nslice B ln i →
+      (∀ e, hdrScan schemeLit ⟨nl, cur, man, mc⟩ (nslice B i hi) = .error e →
+        readHeader_loop2 f R_Read R_Data R_Step buf0 src pb man mc err B n nn (i : Int) ul (nl : Int) (ln : Int) line
+          = .ok (.ret (([] : List UInt8), ([] : List UInt8), encHdrErr e, src, pb))) ∧
+      (∀ st', hdrScan schemeLit ⟨nl, cur, man, mc⟩ (nslice B i hi) = .ok st' →
+        ∃ (i' : Int) (ln' : Nat) (line' : List UInt8),
+          readHeader_loop2 f R_Read R_Data R_Step buf0 src pb man mc err B n nn (i : Int) ul (nl : Int) (ln : Int) line
+            = .ok (.brk (st'.manifest, st'.mac, i', (st'.newlines : Int), (ln' : Int), line')) ∧
+          ln' ≤ hi ∧ st'.curRev.reverse = nslice B ln' hi) := by
+  intro k
+  unfold maxI64 at hmax
+  induction k with
+  | zero =>
+    intro f i ln nl cur man mc line hik hf hln hcur
+    obtain ⟨f, rfl⟩ : ∃ f', f = f' + 1 := ⟨f - 1, by omega⟩
+    have hi' : i = hi := by omega
+    subst hi'
+    rw [nslice_self, rh_loop2_succ, hw]
+    have hc : (decide ((i : Int) < (i : Int)) && decide ((nl : Int) < 3)) = false := by simp
+    rw [hc]
+    simp only [Bool.false_eq_true, if_false]
+    refine ⟨fun e h => (by cases h), fun st' h => ?_⟩
+    simp only [hdrScan, Except.ok.injEq] at h
+    subst h
+    exact ⟨_, ln, line, rfl, hln, hcur⟩
+  | succ k ih =>
+    intro f i ln nl cur man mc line hik hf hln hcur
+    obtain ⟨f, rfl⟩ : ∃ f', f = f' + 1 := ⟨f - 1, by omega⟩
+    rw [rh_loop2_succ, hw]
+    by_cases h3 : 3 ≤ nl
+    · -- three line feeds already: the code stops scanning, the model collects the rest
+      have hc : (decide ((i : Int) < (hi : Int)) && decide ((nl : Int) < 3)) = false := by
+        simp only [Bool.and_eq_false_iff, decide_eq_false_iff_not]; right; omega
+      rw [hc]
+      simp only [Bool.false_eq_true, if_false]
+      rw [hdrScan_extra schemeLit _ _ h3]
+      refine ⟨fun e h => (by cases h), fun st' h => ?_⟩
+      simp only [Except.ok.injEq] at h
+      subst h
+      refine ⟨_, ln, line, rfl, by omega, ?_⟩
+      simp only [List.reverse_append, List.reverse_reverse]
+      rw [hcur, nslice_append B ln i hi hln (by omega) hhi]
+    · have hc : (decide ((i : Int) < (hi : Int)) && decide ((nl : Int) < 3)) = true := by
+        simp only [Bool.and_eq_true, decide_eq_true_eq]; omega
+      have hb : decide (0 ≤ (i : Int) ∧ (i : Int) < lenI B) = true := by
+        unfold lenI; simp only [decide_eq_true_eq]; omega
+      have hw1 : wrapI64 ((i : Int) + 1) = ((i + 1 : Nat) : Int) := wrap_nat_succ i (by unfold maxI64; omega)
+      rw [hc]
+      simp only [hb, Bool.not_true, Bool.false_eq_true, if_false, if_true, hw1, idx_cast B i (by omega)]
+      rw [nslice_cons B i hi (by omega) hhi, hdrScan_cons]
+      by_cases hb10 : B[i] = 10
+      · have hne : (B[i] != (10 : UInt8)) = false := by rw [hb10]; rfl
+        rw [hne, hb10]
+        simp only [Bool.false_eq_true, if_false]
+        by_cases hemp : i ≤ ln
+        · -- an empty line
+          have hle : decide ((i : Int) ≤ (ln : Int)) = true := by simp only [decide_eq_true_eq]; omega
+          have hcur0 : cur = [] := by
+            have : ln = i := by omega
+            rw [this, nslice_self] at hcur
+            simpa using hcur
+          rw [hle, hcur0, hdrStep_empty schemeLit nl man mc (by omega)]
+          simp only [if_true]
+          exact ⟨fun e h => (by cases h; rfl), fun st' h => (by cases h)⟩
+        · have hle : decide ((i : Int) ≤ (ln : Int)) = false := by simp only [decide_eq_false_iff_not]; omega
+          have hcurne : cur ≠ [] := by
+            intro h
+            have := congrArg List.length hcur
+            rw [h, nslice_length B ln i (by omega)] at this
+            simp at this
+            omega
+          have hb2 : decide (0 ≤ (ln : Int) ∧ (ln : Int) ≤ (i : Int) ∧ (i : Int) ≤ lenI B) = true := by
+            unfold lenI; simp only [decide_eq_true_eq]; omega
+          rw [hle]
+          simp only [hb2, Bool.not_true, Bool.false_eq_true, if_false, slice_cast, ← hcur]
+          have hnil : ([] : List UInt8).reverse = nslice B (i + 1) (i + 1) := by rw [nslice_self]; rfl
+          obtain rfl | rfl | rfl : nl = 0 ∨ nl = 1 ∨ nl = 2 := by omega
+          · rw [hdrStep_nl0 schemeLit cur man mc hcurne]
+            have h00 : (((0 : Nat) : Int) == 0) = true := by decide
+            have hw2 : wrapI64 (((0 : Nat) : Int) + 1) = ((1 : Nat) : Int) := by decide
+            rw [h00]
+            simp only [if_true, hw2]
+            by_cases hs : cur.reverse = schemeLit
+            · have : (cur.reverse != schemeLit) = false := by rw [hs]; simp
+              rw [this, if_pos hs]
+              simp only [Bool.false_eq_true, if_false]
+              exact ih f (i + 1) (i + 1) 1 [] man mc cur.reverse (by omega) (by omega) (Nat.le_refl _) hnil
+            · have : (cur.reverse != schemeLit) = true := by simpa using hs
+              rw [this, if_neg hs]
+              simp only [if_true]
+              exact ⟨fun e h => (by cases h; rfl), fun st' h => (by cases h)⟩
+          · rw [hdrStep_nl1 schemeLit cur man mc hcurne]
+            have h10 : (((1 : Nat) : Int) == 0) = false := by decide
+            have h11 : (((1 : Nat) : Int) == 1) = true := by decide
+            have hw2 : wrapI64 (((1 : Nat) : Int) + 1) = ((2 : Nat) : Int) := by decide
+            rw [h10, h11]
+            simp only [Bool.false_eq_true, if_false, if_true, hw2]
+            exact ih f (i + 1) (i + 1) 2 [] cur.reverse mc cur.reverse (by omega) (by omega) (Nat.le_refl _) hnil
+          · rw [hdrStep_nl2 schemeLit cur man mc hcurne]
+            have h20 : (((2 : Nat) : Int) == 0) = false := by decide
+            have h21 : (((2 : Nat) : Int) == 1) = false := by decide
+            have h22 : (((2 : Nat) : Int) == 2) = true := by decide
+            have hw2 : wrapI64 (((2 : Nat) : Int) + 1) = ((3 : Nat) : Int) := by decide
+            rw [h20, h21, h22]
+            simp only [Bool.false_eq_true, if_false, if_true, hw2]
+            exact ih f (i + 1) (i + 1) 3 [] man cur.reverse cur.reverse (by omega) (by omega) (Nat.le_refl _) hnil
+      · have hne : (B[i] != (10 : UInt8)) = true := by simpa using hb10
+        rw [hne, hdrStep_other schemeLit nl cur man mc B[i] (by omega) hb10]
+        simp only [if_true]
+        refine ih f (i + 1) ln nl (B[i] :: cur) man mc line (by omega) (by omega) (by omega) ?_
+        rw [List.reverse_cons, hcur, nslice_snoc B ln i hln (by omega)]
+
+end scan
+
+/-- The model's read loop against the translated one: the model fails exactly when the code returns
+from inside the loop (with the matching error, `nil` slices and the reader not re-wrapped), and
+otherwise the loop ends with the model's reader, scan state and last read result, the model's
+current line being `buf[lastNewline:n]`. -/
+def L1Rel (pb : List UInt8) (len : Nat) :
+    Except Enc.Err (HdrState × ReadRes × Reader) → H1Out Reader → Prop
+  | .error e, .ok (.ret (m, c, e', _, p)) => m = [] ∧ c = [] ∧ e' = encHdrErr e ∧ p = pb
+  | .ok (st, res, r'), .ok (.brk (src, manifest, mac, err, buf, n, _, _, _, newlines, ln, _)) =>
+      src = r' ∧ manifest = st.manifest ∧ mac = st.mac ∧ err = encRes res ∧ buf.length = len ∧
+      newlines = (st.newlines : Int) ∧
+      ∃ (n' ln' : Nat), n = (n' : Int) ∧ ln = (ln' : Int) ∧ ln' ≤ n' ∧ n' ≤ 65536 ∧
+        st.curRev.reverse = nslice buf ln' n'
+  | _, _ => False
+
+theorem encRes_ne_none (res : ReadRes) (h : res ≠ .none) : (encRes res == (none : GoSem.Err)) = false := by
+  cases res with
+  | none => exact absurd rfl h
+  | eof => rfl
+  | fail => rfl
+
+/-- **The read loop is `hdrLoop`.** -/
+theorem rh_loop1_sim (buf0 pb : List UInt8) :
+    ∀ (g F : Nat) (r : Reader) (n ln nl : Nat) (cur man mc B : List UInt8) (nn i ul : Int) (line : List UInt8),
+      r.measure < g → r.measure + 65538 ≤ F → ln ≤ n → n ≤ 65536 → 65536 ≤ B.length →
+      (B.length : Int) ≤ maxI64 → cur.reverse = nslice B ln n →
+      L1Rel pb B.length (hdrLoop schemeLit 65536 g r n ⟨nl, cur, man, mc⟩)
+        (readHeader_loop1 F rRead rData rStep buf0 r pb man mc none B (n : Int) nn i ul (nl : Int) (ln : Int) line) := by
+  intro g
+  induction g with
+  | zero => intro F r n ln nl cur man mc B nn i ul line h; omega
+  | succ g ih =>
+    intro F r n ln nl cur man mc B nn i ul line hg hF hln hn hB hmax hcur
+    obtain ⟨F, rfl⟩ : ∃ F', F = F' + 1 := ⟨F - 1, by omega⟩
+    rw [hdrLoop_succ, rh_loop1_succ]
+    simp only
+    by_cases h3 : nl ≥ 3
+    · have hc : (decide ((nl : Int) < 3) && ((none : GoSem.Err) == none)) = false := by
+        simp only [Bool.and_eq_false_iff, decide_eq_false_iff_not]; left; omega
+      rw [if_pos h3, hc]
+      simp only [Bool.false_eq_true, if_false]
+      exact ⟨rfl, rfl, rfl, rfl, rfl, rfl, n, ln, rfl, rfl, hln, hn, hcur⟩
+    · have hc : (decide ((nl : Int) < 3) && ((none : GoSem.Err) == none)) = true := by
+        simp only [Bool.and_eq_true, decide_eq_true_eq]; exact ⟨by omega, rfl⟩
+      rw [if_neg h3, hc]
+      simp only [if_true]
+      unfold hdrBody
+      by_cases hfull : n = 65536
+      · subst hfull
+        have : (((65536 : Nat) : Int) == ulOf ((65536 : Nat) : Int)) = true := ulOf_full
+        rw [this]
+        simp only [if_true]
+        exact ⟨rfl, rfl, rfl, rfl, rfl, rfl, 65536, ln, rfl, rfl, hln, Nat.le_refl _, hcur⟩
+      · rw [if_neg hfull]
+        have hm : 0 < 65536 - n := by omega
+        have hb : decide (0 ≤ (n : Int) ∧ (n : Int) ≤ (65536 : Int) ∧ (65536 : Int) ≤ lenI B) = true := by
+          unfold lenI; simp only [decide_eq_true_eq]; omega
+        have hk1 : lenI (slice B (n : Int) 65536) = ((65536 - n : Nat) : Int) := by
+          unfold lenI
+          rw [slice_length _ _ _ (by omega)]; omega
+        have hlen1 : ∀ d, (writeAt B (n : Int) 65536 d).length = B.length := fun d =>
+          writeAt_length _ _ _ _ (by omega) (by omega)
+        have hk2 : ∀ d, lenI (slice (writeAt B (n : Int) 65536 d) (n : Int) 65536) = ((65536 - n : Nat) : Int) := by
+          intro d
+          unfold lenI
+          rw [slice_length _ _ _ (by rw [hlen1]; omega)]; omega
+        simp only [ulOf_ne (n : Int) (by omega) (by omega), hb, Bool.not_true, Bool.false_eq_true, if_false, hk1, hk2,
+          rRead, rData, rStep, Int.toNat_natCast]
+        have h1 := read_length_le r (65536 - n)
+        have hmeas := read_none_measure_lt r (65536 - n) hm
+        generalize r.read (65536 - n) = y at h1 hmeas
+        obtain ⟨chunk, res, r'⟩ := y
+        simp only at h1 hmeas ⊢
+        -- after the read: the next iteration, or the exit with the reader's terminal condition
+        have tail : ∀ (st' : HdrState) (n' ln' : Nat) (B1 : List UInt8) (nn' i' ul' : Int) (line' : List UInt8),
+            ln' ≤ n' → n' ≤ 65536 → B1.length = B.length → st'.curRev.reverse = nslice B1 ln' n' →
+            L1Rel pb B.length (if res = .none then hdrLoop schemeLit 65536 g r' n' st' else .ok (st', res, r'))
+              (readHeader_loop1 F rRead rData rStep buf0 r' pb st'.manifest st'.mac (encRes res) B1 (n' : Int) nn' i' ul'
+                (st'.newlines : Int) (ln' : Int) line') := by
+          intro st' n' ln' B1 nn' i' ul' line' t1 t2 t3 t4
+          by_cases hres : res = .none
+          · subst hres
+            rw [if_pos rfl]
+            obtain ⟨nl', cur', man', mc'⟩ := st'
+            have := ih F r' n' ln' nl' cur' man' mc' B1 nn' i' ul' line' (by have := hmeas rfl; omega)
+              (by have := hmeas rfl; omega) t1 t2 (by omega) (by omega) t4
+            rw [t3] at this
+            exact this
+          · rw [if_neg hres]
+            obtain ⟨F, rfl⟩ : ∃ F', F = F' + 1 := ⟨F - 1, by omega⟩
+            rw [rh_loop1_succ, encRes_ne_none res hres]
+            simp only [Bool.and_false, Bool.false_eq_true, if_false]
+            exact ⟨rfl, rfl, rfl, rfl, t3, rfl, n', ln', rfl, rfl, t1, t2, t4⟩
+        have hcur1 : cur.reverse = nslice (writeAt B (n : Int) 65536 chunk) ln n := by
+          rw [nslice_writeAt_below _ _ _ _ _ _ (by omega) (by omega)]; exact hcur
+        by_cases hch : chunk = []
+        · subst hch
+          have hz : decide ((([] : List UInt8).length : Int) ≤ 0) = true := by decide
+          rw [hz]
+          simp only [if_true, hdrScan, List.length_nil, Nat.add_zero]
+          exact tail ⟨nl, cur, man, mc⟩ n ln _ _ _ _ _ hln hn (hlen1 _) hcur1
+        · have hpos : 0 < chunk.length := List.length_pos_iff.mpr hch
+          have hz : decide ((chunk.length : Int) ≤ 0) = false := by
+            simp only [decide_eq_false_iff_not]; omega
+          rw [hz]
+          simp only [Bool.false_eq_true, if_false]
+          have hchunk : nslice (writeAt B (n : Int) 65536 chunk) n (n + chunk.length) = chunk := by
+            unfold nslice
+            have := writeAt_take B chunk n 65536 (by omega) (by omega) (by omega)
+            rw [this, List.drop_append_of_le_length (by simp only [List.length_take]; omega)]
+            rw [List.drop_of_length_le (by simp only [List.length_take]; omega)]
+            rfl
+          have f1 : n + chunk.length ≤ (writeAt B (n : Int) 65536 chunk).length := by rw [hlen1]; omega
+          have f2 : chunk.length + 1 ≤ F := by omega
+          have f3 : n + chunk.length ≤ 65536 := by omega
+          have hw : wrapI64 ((n : Int) + (chunk.length : Int)) = ((n + chunk.length : Nat) : Int) := by
+            rw [wrapI64_of_in (by unfold InI64; omega)]; omega
+          obtain ⟨s1, s2⟩ := rh_loop2_sim rRead rData rStep buf0 r' pb (encRes res) (writeAt B (n : Int) 65536 chunk)
+            (n : Int) (chunk.length : Int) (ulOf (n : Int)) (n + chunk.length) hw f1
+            (by rw [hlen1]; exact hmax) chunk.length F n ln nl cur man mc line rfl f2 hln hcur1
+          rw [hchunk] at s1 s2
+          cases hsc : hdrScan schemeLit ⟨nl, cur, man, mc⟩ chunk with
+          | error e =>
+            rw [s1 e hsc]
+            simp only [bindH]
+            exact ⟨rfl, rfl, rfl, rfl⟩
+          | ok st' =>
+            obtain ⟨i', ln', line', e1, e2, e3⟩ := s2 st' hsc
+            rw [e1]
+            simp only [bindH, hw]
+            exact tail st' (n + chunk.length) ln' _ _ _ _ _ e2 f3 (hlen1 _) e3
+
+/-- The model's result in the shape of the translated function's result
+`(manifest, mac, err, src, pushback)`: `r'` is the final state of the source and `pb` the bytes
+pushed back in front of it. -/
+def hdrResult (m : Except Enc.Err (Bytes × Bytes × Reader)) (r' : Reader) (pb : Bytes) : HRet Reader :=
+  match m with
+  | .ok (manifest, mac, _) => (manifest, mac, none, r', pb)
+  | .error e => ([], [], encHdrErr e, r', [])
+
+/-- How the model's returned reader relates to the code's final source state `r'` and ghost
+`pushback` `pb`: it is `r'` with `pb` put in front (`io.MultiReader(bytes.NewReader(pb), r')`). -/
+def hdrReaderRel (m : Except Enc.Err (Bytes × Bytes × Reader)) (r' : Reader) (pb : Bytes) : Prop :=
+  match m with
+  | .ok (_, _, rm) => rm = { r' with pushback := pb ++ r'.pushback }
+  | .error _ => True
+
+theorem fill_exact (d : List UInt8) (k : Nat) (h : d.length = k) :
+    GoSem.fill (List.replicate k (0 : UInt8)) d = d := by
+  unfold GoSem.fill
+  simp only [List.length_replicate]
+  rw [List.take_of_length_le (by omega), List.drop_of_length_le (by simp only [List.length_replicate]; omega)]
+  simp
+
+/-- **The model is the code** (`readHeader`). For the scheme name and header limit of the source
+(`P.scheme` = the bytes of "dapr.io/enc/v1", `P.hdrMax` = 65536 — true of `EncParams.generated`:
+`readHeader_code_eq_model_generated`), every pooled buffer of at least 65536 bytes (content
+arbitrary), every reader script `r` and every fuel `≥ r.measure + 65538`, the TRANSLATED
+`readHeader`, started with an empty ghost `pushback`, terminates without panic and returns exactly
+what the model `Kit.Enc.readHeader P r` returns:
+* model `.ok (manifest, mac, rm)`: the code returns `(manifest, mac, nil)`, and the model's reader
+  `rm` is the code's final source state `r'` with the code's ghost `pushback` in front of it;
+* model `.error e`: the code returns `(nil, nil, err)` with `err` the failing source's own error for
+  `e = .source` and an `errors.New(…)` otherwise, and leaves `pushback` empty. -/
+theorem readHeader_code_eq_model (P : EncParams) (hs : P.scheme = schemeLit) (hm : P.hdrMax = 65536)
+    (buf0 : List UInt8) (hbuf : 65536 ≤ lenI buf0) (hlen : lenI buf0 ≤ maxI64)
+    (r : Reader) (fuel : Nat) (hfuel : r.measure + 65538 ≤ fuel) :
+    ∃ r' pb, Kit.Generated.CodeC01.readHeader fuel rRead rData rStep buf0 r []
+        = .ok (hdrResult (Kit.Enc.readHeader P r) r' pb) ∧
+      hdrReaderRel (Kit.Enc.readHeader P r) r' pb := by
+  unfold lenI at hbuf hlen
+  have h := rh_loop1_sim buf0 [] (r.measure + 1) fuel r 0 0 0 [] [] [] buf0 0 0 0 [] (by omega) hfuel
+    (Nat.le_refl _) (by omega) (by omega) hlen (by rw [nslice_self]; rfl)
+  rw [readHeader_eq_finish]
+  unfold Kit.Enc.readHeader readHeaderWith
+  rw [hs, hm]
+  have hz : ((0 : Nat) : Int) = (0 : Int) := rfl
+  rw [hz] at h
+  have hst : ({} : HdrState) = ⟨0, [], [], []⟩ := rfl
+  rw [hst]
+  generalize hdrLoop schemeLit 65536 (r.measure + 1) r 0 ⟨0, [], [], []⟩ = M at h
+  generalize readHeader_loop1 fuel rRead rData rStep buf0 r [] [] [] none buf0 0 0 0 0 0 0 [] = X at h
+  unfold maxI64 at hlen
+  match M, X, h with
+  | .error e, .ok (.ret (m, c, e', s, p)), ⟨h1, h2, h3, h4⟩ =>
+    subst h1 h2 h3 h4
+    exact ⟨s, [], rfl, trivial⟩
+  | .ok (st, res, r'), .ok (.brk (src, manifest, mac, err, buf, n, nn, i, ul, newlines, ln, line)),
+      ⟨h1, h2, h3, h4, h5, h6, n', ln', h7, h8, h9, h10, hcur⟩ =>
+    subst h1 h2 h3 h4 h6 h7 h8
+    unfold hdrFinish
+    simp only
+    by_cases c1 : st.newlines < 1
+    · have : decide ((st.newlines : Int) < 1) = true := by simp only [decide_eq_true_eq]; omega
+      rw [if_pos c1, this]
+      exact ⟨src, [], rfl, trivial⟩
+    · have : decide ((st.newlines : Int) < 1) = false := by simp only [decide_eq_false_iff_not]; omega
+      rw [if_neg c1, this]
+      simp only [Bool.false_eq_true, if_false]
+      by_cases c2 : st.manifest.isEmpty = true
+      · have : (lenI st.manifest == 0) = true := by
+          rw [List.isEmpty_iff] at c2; rw [c2]; rfl
+        rw [if_pos c2, this]
+        exact ⟨src, [], rfl, trivial⟩
+      · have : (lenI st.manifest == 0) = false := by
+          rw [beq_eq_false_iff_ne]; unfold lenI
+          intro h; apply c2
+          rw [List.isEmpty_iff]; exact List.eq_nil_of_length_eq_zero (by omega)
+        rw [if_neg c2, this]
+        simp only [Bool.false_eq_true, if_false]
+        by_cases c3 : st.mac.isEmpty = true
+        · have : (lenI st.mac == 0) = true := by
+            rw [List.isEmpty_iff] at c3; rw [c3]; rfl
+          rw [if_pos c3, this]
+          exact ⟨src, [], rfl, trivial⟩
+        · have : (lenI st.mac == 0) = false := by
+            rw [beq_eq_false_iff_ne]; unfold lenI
+            intro h; apply c3
+            rw [List.isEmpty_iff]; exact List.eq_nil_of_length_eq_zero (by omega)
+          rw [if_neg c3, this]
+          simp only [Bool.false_eq_true, if_false]
+          by_cases c4 : res = .fail
+          · subst c4
+            have : ((encRes .fail != (none : GoSem.Err)) && !(encRes .fail == (some "io.EOF" : GoSem.Err))) = true := by
+              decide
+            rw [this]
+            simp only [Bool.true_and, decide_true, if_true]
+            exact ⟨src, [], rfl, trivial⟩
+          · have : ((encRes res != (none : GoSem.Err)) && !(encRes res == (some "io.EOF" : GoSem.Err))) = false := by
+              cases res
+              · decide
+              · decide
+              · exact absurd rfl c4
+            have c4' : (true && decide (res = .fail)) = false := by simp [c4]
+            rw [this, c4']
+            simp only [Bool.false_eq_true, if_false]
+            by_cases c5 : ln' < n'
+            · have hgt : decide ((n' : Int) > (ln' : Int)) = true := by simp only [decide_eq_true_eq]; omega
+              have hw : wrapI64 ((n' : Int) - (ln' : Int)) = ((n' - ln' : Nat) : Int) := by
+                rw [wrapI64_of_in (by unfold InI64; omega)]; omega
+              have hb1 : decide (0 ≤ ((n' - ln' : Nat) : Int)) = true := by simp only [decide_eq_true_eq]; omega
+              have hb2 : decide (0 ≤ (ln' : Int) ∧ (ln' : Int) ≤ (n' : Int) ∧ (n' : Int) ≤ lenI buf) = true := by
+                unfold lenI; simp only [decide_eq_true_eq]; omega
+              rw [hgt]
+              simp only [if_true, hw, hb1, hb2, Bool.not_true, Bool.false_eq_true, if_false, Int.toNat_natCast, slice_cast]
+              rw [fill_exact _ _ (nslice_length buf ln' n' (by omega)), ← hcur]
+              exact ⟨src, st.curRev.reverse, rfl, rfl⟩
+            · have hgt : decide ((n' : Int) > (ln' : Int)) = false := by simp only [decide_eq_false_iff_not]; omega
+              rw [hgt]
+              simp only [Bool.false_eq_true, if_false]
+              have : ln' = n' := by omega
+              rw [this, nslice_self] at hcur
+              refine ⟨src, [], rfl, ?_⟩
+              simp only [hdrReaderRel, hcur]
+
+/-- The generated parameters (re-extracted from the Go source on every run) are an instance. -/
+theorem readHeader_code_eq_model_generated (buf0 : List UInt8) (hbuf : 65536 ≤ lenI buf0) (hlen : lenI buf0 ≤ maxI64)
+    (r : Reader) (fuel : Nat) (hfuel : r.measure + 65538 ≤ fuel) :
+    ∃ r' pb, Kit.Generated.CodeC01.readHeader fuel rRead rData rStep buf0 r []
+        = .ok (hdrResult (Kit.Enc.readHeader EncParams.generated r) r' pb) ∧
+      hdrReaderRel (Kit.Enc.readHeader EncParams.generated r) r' pb :=
+  readHeader_code_eq_model EncParams.generated rfl rfl buf0 hbuf hlen r fuel hfuel
+
+/-- **Transfer of `C01.readHeader_spec` to the translated code**: for any stream that starts with a
+well-formed header (scheme line, non-empty manifest and MAC lines without line feeds) of at most
+65536 bytes and any script of a non-failing source, the TRANSLATED `readHeader` returns the manifest
+and MAC lines with a nil error, and the pushed-back bytes followed by what the source still holds
+are exactly the rest of the stream. -/
+theorem readHeader_code_spec (P : EncParams) (hs : P.scheme = schemeLit) (hm : P.hdrMax = 65536)
+    (buf0 : List UInt8) (hbuf : 65536 ≤ lenI buf0) (hlen : lenI buf0 ≤ maxI64)
+    (ml cl rest : Bytes) (wf : HdrWF P.scheme ml cl) (hmax : (hdrBytes P.scheme ml cl).length ≤ 65536)
+    (r : Reader) (heof : r.term = .eof) (hstream : r.stream = hdrBytes P.scheme ml cl ++ rest)
+    (fuel : Nat) (hfuel : r.measure + 65538 ≤ fuel) :
+    ∃ r' pb, Kit.Generated.CodeC01.readHeader fuel rRead rData rStep buf0 r [] = .ok (ml, cl, none, r', pb) ∧
+      pb ++ r'.stream = rest ∧ r'.term = .eof := by
+  obtain ⟨rm, e1, e2, e3⟩ := C01.readHeader_spec P ml cl rest wf (by rw [hm]; exact hmax) r heof hstream
+  obtain ⟨r', pb, c1, c2⟩ := readHeader_code_eq_model P hs hm buf0 hbuf hlen r fuel hfuel
+  rw [e1] at c1 c2
+  simp only [hdrReaderRel] at c2
+  subst c2
+  refine ⟨r', pb, c1, ?_, e3⟩
+  simpa [Reader.stream, List.append_assoc] using e2
 
 end Kit.Enc.Code
